@@ -2,10 +2,15 @@ package main
 
 import (
 	"fmt"
+	"regexp"
 	"strconv"
 
 	"github.com/antonmedv/expr"
+	"github.com/antonmedv/expr/ast"
+	"github.com/antonmedv/expr/parser"
 )
+
+var locRe = regexp.MustCompile(`(?s)base: ast\.base\{.*?\},?|Location\{[^}]*\}`)
 
 // genCheck is a development aid: generate programs, compile, run fault-free,
 // compare with the reference; print disagreements.
@@ -20,6 +25,7 @@ func genCheck(args []string) int {
 		seed = uint64(s)
 	}
 	bad := 0
+	shorter := 0
 	compileFail := 0
 	for i := 0; i < n && bad < 15; i++ {
 		r := NewRNG(DeriveSeed(seed, "gencheck", i))
@@ -41,6 +47,22 @@ func genCheck(args []string) int {
 		}
 		Sanitize(root, cfg, r)
 		pr := Print(root, Layout{Mode: r.Intn(3), Salt: r.Next()})
+		{
+			// the two parenthesisation styles must read back as one tree
+			full := Print(root, Layout{FullParen: true})
+			min := Print(root, Layout{Salt: 1})
+			tf, ef := parser.Parse(full.Src)
+			tm, em := parser.Parse(min.Src)
+			if ef != nil || em != nil {
+				bad++
+				fmt.Printf("PARSE FAIL %v %v\n  full: %q\n  min: %q\n", ef, em, full.Src, min.Src)
+			} else if locRe.ReplaceAllString(ast.Dump(tf.Node), "") != locRe.ReplaceAllString(ast.Dump(tm.Node), "") {
+				bad++
+				fmt.Printf("TREE MISMATCH\n  full: %q\n  min: %q\n", full.Src, min.Src)
+			} else if len(min.Src) < len(full.Src) {
+				shorter++
+			}
+		}
 		stateful := r.Chance(1, 2)
 		w1 := NewWorld(stateful, nil, nil)
 		e1 := BuildEnv(w1, d)
@@ -73,6 +95,7 @@ func genCheck(args []string) int {
 			fmt.Printf("MISMATCH i=%d rep=%s stateful=%v: %s\n  src: %q\n  env: %s\n", i, rep, stateful, mism, pr.Src, d)
 		}
 	}
+	fmt.Printf("gencheck: minimal-parenthesis text shorter in %d programs\n", shorter)
 	fmt.Printf("gencheck: n=%d bad=%d compileFail=%d hookCalls=%d\n", n, bad, compileFail, hookCalls)
 	return 0
 }
